@@ -28,7 +28,10 @@ os.makedirs(out, exist_ok=True)
 shutil.copy(f"{d}/patch.diff", out)
 for f in os.listdir(d):
     if f not in ("patch.diff", "meta.json"):
-        shutil.copy(f"{d}/{f}", out)
+        if os.path.isdir(f"{d}/{f}"):
+            shutil.copytree(f"{d}/{f}", f"{out}/{f}", dirs_exist_ok=True)
+        elif os.path.getsize(f"{d}/{f}") < 200000:
+            shutil.copy(f"{d}/{f}", out)
 meta = json.load(open(f"{d}/meta.json"))
 meta.update({"seeded_id": sid, "confirmed": True,
              "confirmation": "tools/confirm_mutant.sh: patch applies; core/provider/api unit tests and trampoline snapshot tests pass with it; demo_cmd fails with the patch and passes without (run in a scratch worktree)",
